@@ -39,6 +39,7 @@ WITNESSES = {
     "KF_C17_2": "match x:\n    case [m1, m2]:\n        m1.ma",
     "KF_C17_3": "del p.a\np.c",
     "KF_C17_4": "t = 1\ndel t",
+    "KF_C02_1": "g(getattr(p, 'b').items(y, 'd'))",   # a call through a getattr spine is recorded under a name the body never calls
 }
 
 
@@ -71,7 +72,9 @@ def run(tier: str) -> dict:
     rng = random.Random(C.SEED)
     depth, cap, n_rand = (2, 2200, 500) if tier == "quick" else (3, 40000, 8000)
     wit = list(WITNESSES.items())
-    bodies = [b for _, b in wit] + G.catalogue(depth, rng, cap) + [G.random_body(rng) for _ in range(n_rand)]
+    bodies = [b for _, b in wit] + G.INTERPLAY + G.catalogue(depth, rng, cap) + [G.random_body(rng) for _ in range(n_rand)]
+    # the same interplay / boundary shapes again at the end, so that they are also met in the other module environments
+    bodies += G.INTERPLAY + G.NAMEABLES_LOAD[-9:] + G.INTERPLAY + G.NAMEABLES_LOAD[-9:]
     old_path0, old_cwd = sys.path[0], os.getcwd()
     cases, metas = [], []
     file_problems = []
@@ -81,7 +84,7 @@ def run(tier: str) -> dict:
         os.chdir(scratch)
         try:
             for mi, grp in enumerate(G.modules(bodies)):
-                src = G.PRELUDE + "\n".join(s for _, _, s in grp)
+                src = G.prelude_for(mi) + "\n".join(s for _, _, s in grp)
                 recs, fo = fa_lib.analyse_module(scratch / f"m{mi}.py", src)
                 if fo[0] != "ok":
                     file_problems.append({"module_source": src[-1500:], "outcome": fo})
@@ -113,7 +116,9 @@ def run(tier: str) -> dict:
 
 
 def check(prop: str, tier: str, *, new_bits: int, kf_bit: int | None, beyond_bit: int | None, proof_files: list[str],
-          what: str, kf_prefix: str) -> int:
+          what: str, kf_prefix: str, kf_requires: int = 0) -> int:
+    """new_bits: spec failure bits; kf_bit: failure inside a listed class (kf_requires: extra bit that must also be set for
+    the failure to count as inside the class); beyond_bit: rattr's failure goes beyond what the model predicts."""
     T = C.Timer()
     V = C.Verdict(prop)
     import translate_tables
@@ -126,9 +131,12 @@ def check(prop: str, tier: str, *, new_bits: int, kf_bit: int | None, beyond_bit
     judged = [(c, m) for c, m in res["cases"] if not (c & 64)]
     ok_cases = [(c, m) for c, m in judged if not (c & 32)]
     corr_fail = [m for c, m in judged if c & 1]
-    new = [m for c, m in ok_cases if (c & new_bits) or (beyond_bit and c & beyond_bit)]
-    kf_repro = {m["witness_of"] for c, m in ok_cases if kf_bit and (c & kf_bit) and m["witness_of"]}
-    kf_any = sum(1 for c, m in ok_cases if kf_bit and (c & kf_bit))
+    def in_class(c):
+        return bool(kf_bit and (c & kf_bit) and (c & kf_requires) == kf_requires and not (beyond_bit and c & beyond_bit))
+
+    new = [m for c, m in ok_cases if ((c & new_bits) and not (kf_bit == new_bits and in_class(c))) or (beyond_bit and c & beyond_bit and c & (new_bits | (kf_bit or 0)))]
+    kf_repro = {m["witness_of"] for c, m in ok_cases if in_class(c) and m["witness_of"]}
+    kf_any = sum(1 for c, m in ok_cases if in_class(c))
 
     for m in new[:5]:
         V.violation({"property": prop, "why": what, **m})
